@@ -247,6 +247,21 @@ func rewrite(path, rel string) (int, error) {
 	})
 
 	out := src
+	if rel == "util/uuid.go" && strings.Contains(string(src), "uuid.NewV4()") {
+		// gofrs/uuid reads crypto/rand itself; route it through the seeded shim
+		src = append(src, []byte("\nvar verifUUIDGen = uuid.NewGenWithOptions(uuid.WithRandomReader(rand.Reader))\n")...)
+		out = src
+		i := strings.Index(string(src), "uuid.NewV4()")
+		add(i, len("uuid.NewV4()"), "verifUUIDGen.NewV4()")
+		sort.SliceStable(edits, func(i, j int) bool {
+			if edits[i].off != edits[j].off {
+				return edits[i].off > edits[j].off
+			}
+
+			return edits[i].seq > edits[j].seq
+		})
+	}
+
 	for _, e := range edits {
 		out = append(out[:e.off:e.off], append([]byte(e.text), out[e.off+e.del:]...)...)
 	}
